@@ -5,7 +5,7 @@
     implementation on every run). *)
 From Coq Require Import ZArith List Bool.
 From Hts Require Import Base.Prim Generated Model.Index Model.Tabix Model.IndexSpec Model.IndexIO
-  Proofs.IndexStats Proofs.IndexIO.
+  Proofs.IndexStats Proofs.IndexIO Proofs.IndexIOFull Proofs.IndexFinal Proofs.TabixIO.
 Open Scope Z_scope.
 
 (** Statistics are true: for EVERY record list that Add accepts (whatever its
@@ -29,14 +29,51 @@ Proof.
 Qed.
 Print Assumptions stats_true.
 
+(** BAI, byte level, for EVERY index all of whose numbers fit their fields and
+    that is in the order [Index.sort] establishes ([idx_fits (ix_sort ix)]):
+    reading what WriteIndex wrote gives the sorted index with LastRecord =
+    max int, and writing that gives the same bytes. *)
+Theorem index_io_roundtrip :
+  forall ix, idx_fits (ix_sort ix) ->
+    bai_read (fst (bai_write ix)) = Ok (Some (mkIdx (irefs (ix_sort ix)) (iunm ix) true io_maxint)) /\
+    fst (bai_write (mkIdx (irefs (ix_sort ix)) (iunm ix) true io_maxint)) = fst (bai_write ix).
+Proof. exact (fun ix H => conj (bai_read_write ix H) (bai_write_read_write ix)). Qed.
+Print Assumptions index_io_roundtrip.
+
+(** For every BAI built by Add (any accepted record list) whose offsets and
+    counters fit their fields ([idx_ranges]; the order is established by the
+    writer itself): round trip as above, every query answers identically
+    before and after, and NumRefs, the unplaced count and every
+    ReferenceStats are unchanged. *)
+Theorem chunks_preserved :
+  forall rs ix, ix_fold_add ix_empty rs = Ok ix -> idx_ranges ix ->
+    bai_read (fst (bai_write ix)) = Ok (Some (bai_reread ix)) /\
+    fst (bai_write (bai_reread ix)) = fst (bai_write ix) /\
+    (forall rid beg end_, fst (ix_chunks (bai_reread ix) rid beg end_) = fst (ix_chunks ix rid beg end_)) /\
+    ix_numrefs (bai_reread ix) = ix_numrefs ix /\ iunm (bai_reread ix) = iunm ix /\
+    (forall rid, ix_refstats (bai_reread ix) rid = ix_refstats ix rid).
+Proof. exact bai_io_preserves. Qed.
+Print Assumptions chunks_preserved.
+
+(** tabix, byte level, for EVERY tabix index that fits ([tbx_fits]: header
+    values in range, names without NUL bytes and pairwise different, one name
+    per reference, numbers fit their fields, core in sorted order after sort):
+    ReadFrom of what WriteTo wrote gives the same header and names, the name map
+    0..n-1 and the sorted core; writing that gives the same bytes. *)
+Theorem tabix_io_roundtrip :
+  forall t, tbx_fits t ->
+    tbx_read (fst (tbx_write t)) = Ok (Some (tbx_reread t)) /\
+    fst (tbx_write (tbx_reread t)) = fst (tbx_write t).
+Proof. exact (fun t H => conj (tbx_read_write t H) (tbx_write_read_write t)). Qed.
+Print Assumptions tabix_io_roundtrip.
+
 (** Answers are preserved: an index whose reference structure is that of the
     sorted index (this is what write followed by read produces, whatever
     LastRecord is) answers every query exactly like the original.
-    PARTIAL: the premise [irefs ix2 = irefs (ix_sort ix)] for
-    [ix2 = read (write ix)] is proved at the level of fields, chunks and chunk
-    lists ([index_io_roundtrip_partial]); the composition through bins,
-    pseudo-bin, tiles and references is validated by the correspondence run
-    only. *)
+    PARTIAL: for BAI and tabix the premise [irefs ix2 = irefs (ix_sort ix)] is
+    discharged by [index_io_roundtrip] / [tabix_io_roundtrip] (see
+    [chunks_preserved] and C04's [tabix_complete_after_write_read]); for CSI
+    [ix2 = read (write ix)] is validated by the correspondence run only. *)
 Theorem chunks_preserved_partial :
   forall ix ix2 rid beg end_,
     irefs ix2 = irefs (ix_sort ix) -> isorted ix2 = true ->
@@ -53,21 +90,27 @@ Theorem stats_preserved_partial :
 Proof. exact stats_of_sorted_copy. Qed.
 Print Assumptions stats_preserved_partial.
 
-(** Byte level, PARTIAL (see above): every chunk list that fits its fields is
-    read back, sorted by begin offset, and the reader stops exactly at its end
-    (so what follows is parsed from the right position). *)
+(** Byte level building block shared by the three formats (PARTIAL with
+    respect to CSI and tabix, whose full round trip is not proved): every chunk
+    list that fits its fields is read back, sorted by begin offset, and the
+    reader stops exactly at its end. *)
 Theorem index_io_roundtrip_partial :
   forall cs rest, Forall chunk_fits cs -> zlen cs < 2 ^ 31 ->
     (n <- rd_i32 ;; rd_chunks n) (wr_chunks cs ++ rest) = Ok (ix_isort fst cs, rest).
 Proof. exact chunks_roundtrip. Qed.
 Print Assumptions index_io_roundtrip_partial.
 
-(** Known finding (tabix): an index without references is written with
-    n_ref = 0 and read back as "no index, no error". *)
-Theorem tabix_zero_refs_roundtrip_refuted :
-  exists t, tbx_read (fst (tbx_write t)) = Ok None.
-Proof. exists (tb_new [0; 0; 1; 2; 3; 35; 0]). vm_compute. reflexivity. Qed.
-Print Assumptions tabix_zero_refs_roundtrip_refuted.
+(** The tabix index without references (formerly read back as "no index, no
+    error"; repaired on main) round-trips: it is written with n_ref = 0 and an
+    empty name block and read back as the empty index with the same header. *)
+Theorem tabix_zero_refs_roundtrip :
+  forall f z nc bc ec meta skip,
+    0 <= f < 256 -> (z = 0 \/ z = 1) ->
+    0 <= nc < 2 ^ 31 -> 0 <= bc < 2 ^ 31 -> 0 <= ec < 2 ^ 31 -> 0 <= meta < 2 ^ 31 -> 0 <= skip < 2 ^ 31 ->
+    tbx_read (fst (tbx_write (tb_new [f; z; nc; bc; ec; meta; skip])))
+    = Ok (Some (mkTbx [] [] [f; z; nc; bc; ec; meta; skip] (mkIdx [] None true io_maxint))).
+Proof. exact tabix_empty_roundtrip. Qed.
+Print Assumptions tabix_zero_refs_roundtrip.
 
 (** Non-vacuity: a two-record BAI is written, read back as the sorted index
     (LastRecord = max int) and written again to the same bytes; an empty BAI
